@@ -10,9 +10,12 @@ use crate::engine::*;
 use crate::monitor::*;
 use crate::rng::Rng;
 use crate::sdrv::*;
+use crate::rdrv::Delivery;
 use crate::spec::*;
+use crate::wire;
 use serde::{Deserialize, Serialize};
 use serde_json::Value;
+use std::collections::BTreeSet;
 use std::path::Path;
 
 #[derive(Clone, Debug, PartialEq, Serialize, Deserialize)]
@@ -24,6 +27,66 @@ pub struct Scn {
     /// drop the receiver after this many deliveries (crash point)
     pub crash_after: Option<u32>,
     pub cleanup_every: u32,
+    /// every FDT instance of the session is replaced by a rewritten one (an announcement that lies)
+    #[serde(default)]
+    pub fdt_rewrite: Option<FdtRewrite>,
+}
+
+/// Textual rewrite of `File` attributes of the sender's FDT instances, re-packetised by the harness.
+#[derive(Clone, Debug, PartialEq, Serialize, Deserialize)]
+pub enum FdtRewrite {
+    /// Content-Length := max(0, value + delta)
+    ContentLength(i64),
+    TransferLength(i64),
+    /// both lengths
+    BothLengths(i64),
+    /// the announced Content-MD5 is the one of other bytes
+    Md5,
+    /// Content-Length and Transfer-Length attributes removed
+    DropLengths,
+}
+
+fn rewrite_attr_num(xml: &str, attr: &str, delta: i64) -> String {
+    let pat = format!("{}=\"", attr);
+    let mut out = String::new();
+    let mut rest = xml;
+    while let Some(i) = rest.find(&pat) {
+        // attribute names like Transfer-Length inside "X-Transfer-Length" do not occur in flute's FDT
+        let (head, tail) = rest.split_at(i + pat.len());
+        out.push_str(head);
+        let end = tail.find('"').unwrap_or(0);
+        let v: i64 = tail[..end].parse().unwrap_or(0);
+        out.push_str(&(v + delta).max(0).to_string());
+        rest = &tail[end..];
+    }
+    out.push_str(rest);
+    out
+}
+
+fn drop_attr(xml: &str, attr: &str) -> String {
+    let pat = format!(" {}=\"", attr);
+    let mut out = String::new();
+    let mut rest = xml;
+    while let Some(i) = rest.find(&pat) {
+        out.push_str(&rest[..i]);
+        let tail = &rest[i + pat.len()..];
+        let end = tail.find('"').map(|e| e + 1).unwrap_or(0);
+        rest = &tail[end..];
+    }
+    out.push_str(rest);
+    out
+}
+
+pub fn rewrite_fdt(xml: &[u8], rw: &FdtRewrite) -> Vec<u8> {
+    let s = String::from_utf8_lossy(xml).to_string();
+    let r = match rw {
+        FdtRewrite::ContentLength(d) => rewrite_attr_num(&s, "Content-Length", *d),
+        FdtRewrite::TransferLength(d) => rewrite_attr_num(&s, "Transfer-Length", *d),
+        FdtRewrite::BothLengths(d) => rewrite_attr_num(&rewrite_attr_num(&s, "Content-Length", *d), "Transfer-Length", *d),
+        FdtRewrite::Md5 => s.replace("Content-MD5=\"", "Content-MD5=\"AAAA"),
+        FdtRewrite::DropLengths => drop_attr(&drop_attr(&s, "Content-Length"), "Transfer-Length"),
+    };
+    r.into_bytes()
 }
 
 pub struct C09;
@@ -72,7 +135,7 @@ pub fn gen(idx: u64, rng: &mut Rng, _tier: Tier) -> Scn {
         } else {
             wf.fail_open_at = Some(k - 64);
         }
-        return Scn { sender: tiny(s), recv, chan: ChanSpec::clean(), wfaults: wf, crash_after: crash, cleanup_every: 0 };
+        return Scn { sender: tiny(s), recv, chan: ChanSpec::clean(), wfaults: wf, crash_after: crash, cleanup_every: 0, fdt_rewrite: None };
     }
     // sampled: histories of the C01-C04/C16 kinds
     let soti = gen_sender_oti(rng, None);
@@ -168,6 +231,18 @@ pub fn gen(idx: u64, rng: &mut Rng, _tier: Tier) -> Scn {
         wfaults: wf,
         crash_after: if rng.chance(0.4) { Some(rng.range(0, 400) as u32) } else { None },
         cleanup_every: *rng.pick(&[0u32, 1, 5, 40]),
+        fdt_rewrite: if rng.chance(0.12) {
+            Some(match rng.below(6) {
+                0 => FdtRewrite::ContentLength(-(rng.range(1, 40) as i64)),
+                1 => FdtRewrite::ContentLength(rng.range(1, 40) as i64),
+                2 => FdtRewrite::TransferLength(*rng.pick(&[-17i64, -1, 1, 16])),
+                3 => FdtRewrite::BothLengths(*rng.pick(&[-9i64, -1, 1, 5])),
+                4 => FdtRewrite::Md5,
+                _ => FdtRewrite::DropLengths,
+            })
+        } else {
+            None
+        },
     }
 }
 
@@ -255,6 +330,32 @@ pub fn run(scn: &Scn, ctx: &Ctx, scratch: &Path) {
     }
     let ep = [scn.sender.spec.endpoint.build()];
     let (mut dl, st) = apply(&scn.chan, ctx, &sess.trace, "r0");
+    let mut lied = false;
+    if let (Some(rw), true) = (&scn.fdt_rewrite, scn.sender.spec.fdt_cenc == CencSpec::Null) {
+        // replace every (complete, readable) FDT transmission by the rewritten instance
+        let mut new_dl: Vec<Delivery> = Vec::new();
+        let mut done: BTreeSet<usize> = BTreeSet::new();
+        for d in dl.into_iter() {
+            let tx = d.src.and_then(|i| sess.txs.iter().enumerate().find(|(_, t)| t.pkts.contains(&i) && t.xml.is_some() && t.complete_at.is_some()));
+            match tx {
+                Some((ti, t)) => {
+                    if done.insert(ti) {
+                        let xml = rewrite_fdt(t.xml.as_ref().unwrap(), rw);
+                        let sct = sess.trace.pkts[t.first].dec.sct;
+                        for b in wire::packetise_fdt(&xml, scn.sender.spec.tsi, t.instance_id, t.e as usize, sct, None) {
+                            new_dl.push(Delivery { t_us: d.t_us, bytes: b, src: None, ep: d.ep });
+                        }
+                        lied = true;
+                    }
+                }
+                None => new_dl.push(d),
+            }
+        }
+        dl = new_dl;
+        if lied {
+            ctx.borrow_mut().count_fault("fdt-attribute-rewrite");
+        }
+    }
     if let Some(c) = scn.crash_after {
         if (c as usize) < dl.len() {
             dl.truncate(c as usize);
@@ -267,7 +368,7 @@ pub fn run(scn: &Scn, ctx: &Ctx, scratch: &Path) {
         let t = dl.last().map(|d| d.t_us).unwrap_or(t0_us()) + 20_000_000;
         r.run.cleanup(t);
     }
-    let trusted = st.corrupted == 0;
+    let trusted = st.corrupted == 0 && !lied;
     check_protocol(ctx, Some(&sess), &r.monitor, trusted, false);
     r.run.drop_receiver();
     check_protocol(ctx, Some(&sess), &r.monitor, trusted, true);
